@@ -57,7 +57,7 @@ def normalise_admin_bootstrap(before, after):
             del after["tables"]["T_USER"]
 
 
-def restart_compare(sess, d, gen, snap, min_index, label, seqm):
+def restart_compare(sess, d, gen, snap, min_index, label, seqm, env=None):
     """stop at a quiescent point, restart from the same directory, compare the served state"""
     b = sess.call("barrier", min_index=min_index, bound_ms=RECOVER_BOUND_MS)
     if not b.get("ok"):
@@ -69,7 +69,7 @@ def restart_compare(sess, d, gen, snap, min_index, label, seqm):
     if not noderig.settle_on_disk(sess, d):
         return sess, {"symptom": "not-quiescent-before-stop", "inconclusive": True, "detail": {"applied_on_disk": noderig.applied_index_on_disk(d), "metrics": m}}
     sess.kill()
-    sess = noderig.NodeSession(d, snapshot_size=snap)
+    sess = noderig.NodeSession(d, snapshot_size=snap, env=env)
     b2 = sess.call("barrier", min_index=m.get("last_log_index", 0), bound_ms=RECOVER_BOUND_MS)
     if not b2.get("ok"):
         return sess, {"symptom": "not-recovered-within-bound", "where": label, "detail": {"barrier": b2, "before_stop": m}}
@@ -144,6 +144,10 @@ def one_history(args):
     trace = []
     try:
         concurrent = variant == "concurrent-compaction"
+        # slow-injection: the restarted node replays snapshot and log while the bean factory has not yet wired the actors to each
+        # other (the window exists in the program - the raft store is started inside config_factory, the actors learn their
+        # collaborators in factory.init() - and is seen on a loaded machine; the guarded delay hook makes it wide)
+        renv = {"RNACOS_VERIF_DELAY_INJECT_MS": str(rnd.choice([150, 400, 900]))} if variant == "slow-injection" else None
         real_snap = snap if concurrent else 10000
         compact_p = 0.0 if concurrent or snap >= 10000 else 1.0 / snap
         sess = noderig.NodeSession(d, snapshot_size=real_snap)
@@ -185,7 +189,7 @@ def one_history(args):
                     res["compactions"] += 1
                 trace.append("<compact>")
             if i in restart_at:
-                sess, v = restart_compare(sess, d, gen, real_snap, last_index, "restart@%d" % i, seqm)
+                sess, v = restart_compare(sess, d, gen, real_snap, last_index, "restart@%d" % i, seqm, env=renv)
                 res["restarts"] += 1
                 vl = v if isinstance(v, list) else ([v] if v else [])
                 found += vl
@@ -213,7 +217,7 @@ def one_history(args):
                         seqm.observe(req, r.get("resp"))
                     else:
                         seqm.observe(req, None)
-            sess, v = restart_compare(sess, d, gen, real_snap, last_index, "final", seqm)
+            sess, v = restart_compare(sess, d, gen, real_snap, last_index, "final", seqm, env=renv)
             res["restarts"] += 1
             found += v if isinstance(v, list) else ([v] if v else [])
         v = found
@@ -358,9 +362,6 @@ def compaction_crash_history(args):
             res["restarts"] += 1
             normalise_admin_bootstrap(before, after)
             diffs = noderig.diff_dumps(before, after)
-            # this history writes no users: the built-in admin row is only touched by the start-up bootstrap, whose race with the
-            # replay is the known finding state-differs-after-restart/tables/changed/T_USER/rows/admin (judged by the other histories)
-            diffs = [x for x in diffs if not x[0].startswith("/tables/T_USER/rows/admin")]
             if diffs:
                 p0 = [re.sub(r"\[\d+\]$", "", x) for x in diffs[0][0].split("/")]
                 found.append({"symptom": "state-differs-after-restart", "component": p0[1] if len(p0) > 1 else "-", "direction": "changed", "field": "/".join(p0[2:4]),
@@ -374,6 +375,7 @@ def compaction_crash_history(args):
             v["journal_prefix"] = v["k"] - k0 + 1
             v["of_compaction_mutations"] = len(recs) - k0
             v["history_seed"] = seed
+            v["n_cfg"] = n_cfg
             what = "snapshot-data" if rk[1].startswith("snapshot_") else rk[1].split("_")[0]
             res.setdefault("violations", []).append({"signature": "crash-during-compaction/%s/%s/after-%s-write" % (v["symptom"], v["component"], what), "witness": v})
         return res
@@ -502,6 +504,8 @@ def run(tier, seed):
             jobs.append((wd, seed * 100000 + 50000 + i, 120, [10000, 25][i % 2], "big-values"))
         for i in range(3 if tier == "quick" else 30):
             jobs.append((wd, seed * 100000 + 55000 + i, [40, 120][i % 2], 10000, "tail%d" % (i % 3)))
+        for i in range(6 if tier == "quick" else 60):
+            jobs.append((wd, seed * 100000 + 57000 + i, [40, 120][i % 2], [10000, 13, 40][i % 3], "slow-injection"))
         ic = [(wd, seed * 100000 + 80000 + i, ["most", "half", "all-but-flush"][i % 3]) for i in range(3 if tier == "quick" else 45)]
         results = []
         with ThreadPoolExecutor(max_workers=common.NCPU) as ex:
@@ -511,6 +515,18 @@ def run(tier, seed):
             futs = [ex.submit(compaction_crash_history, (wd, seed * 100000 + 90000 + i, [1200 if tier == "quick" else 2500, 300][i % 2])) for i in range(4 if tier == "quick" else 24)] + futs
             for f in futs:
                 results.append(f.result())
+        # oversubscribed lane: 4 node sessions per core. Start-up is a race between the replay (apply actor, own thread), the bean
+        # injection pass and the fixed start-up timers; on an idle machine one order always wins, a starved scheduler shows the others
+        # (this lane found 6.1 #34 and #36). Quiescence and recovery are decided by the same barriers as everywhere else.
+        n_over = 64 if tier == "quick" else 640
+        over = [(wd, seed * 100000 + 60000 + i, 40, [10000, 10000, 13][i % 3], ["double-restart", "restart-then-more"][i % 2]) for i in range(n_over)]
+        with ThreadPoolExecutor(max_workers=common.NCPU * 4) as ex:
+            ro = list(ex.map(one_history, over))
+        for r in ro:
+            r["variant"] = "oversubscribed-" + r["variant"]
+        out.extra["oversubscribed_lane"] = {"histories": len(ro), "sessions_in_parallel": common.NCPU * 4, "restarts": sum(r.get("restarts", 0) for r in ro),
+                                            "inconclusive": sum(1 for r in ro if "inconclusive" in r)}
+        results += ro
         agg = {"restarts": 0, "writes": 0, "rejected": 0, "histories_with_compaction": 0, "histories_with_3plus_compactions": 0, "kinds_seen": set()}
         for r in results:
             out.evaluations += 1
@@ -559,6 +575,8 @@ def replay(path):
     try:
         if "interrupted" in w["signature"]:
             r = interrupted_compaction((wd, seed, "most"))
+        elif w["signature"].startswith("crash-during-compaction"):
+            r = compaction_crash_history((wd, seed, w["witness"].get("n_cfg") or 300))
         else:
             a = w["witness"].get("args") or [seed, 300, w["witness"].get("snapshot_threshold", 13), "random"]
             r = one_history((wd, a[0], a[1], a[2], a[3]))
